@@ -17,6 +17,23 @@ def summarize(e, spec, wall, err=None):
     for site in spec.get('sites', []):
         if str(site) not in asserts or asserts[str(site)]['reached'] == 0:
             inconc.append(f'vacuity: assert site {site} not reached on any feasible path')
+    # rounding clause (static): a kernel instantiated in double precision must not narrow intermediates to float
+    if e and spec.get('forbid_fp_ops'):
+        bad = [o for o in spec['forbid_fp_ops'] if e.fp_ops.get(o)]
+        if bad and hasattr(e, 'last_state'):
+            import struct
+            ins = []
+            for i, (kind, name, term) in enumerate(e.last_state.inputs):
+                if kind in ('f64', 'unit_f64'):
+                    v = struct.unpack('<Q', struct.pack('<d', 0.1 * (i % 7 + 1) + (16777217.0 if i % 5 == 0 else 0.0)))[0]
+                elif kind in ('f32', 'unit_f32'):
+                    v = struct.unpack('<I', struct.pack('<f', 0.1 * (i % 7 + 1)))[0]
+                else:
+                    v = 1
+                ins.append({'kind': kind, 'name': name, 'value': v, 'bits': True})
+            fails = fails + [{'kind': 'PRECISION-LOSS', 'site': None, 'inputs': ins, 'ufs': [], 'where': None,
+                              'what': f'double-precision kernel executes {bad} ({[e.fp_ops[o] for o in bad]} times): intermediates are narrowed to float, '
+                                      'the op-count rounding bound (k * 2^-53) does not hold'}]
     verdict = 'fail' if fails else ('inconclusive' if inconc else 'pass')
     return {
         'name': spec['name'], 'harness': spec['harness'], 'inst': spec['inst'], 'flavour': spec['flavour'],
